@@ -4,6 +4,8 @@ mod impl_drop;
 #[cfg(test)]
 mod impl_eq;
 mod impl_send;
+#[cfg(brood_verif)]
+mod verif;
 #[cfg(feature = "serde")]
 #[cfg_attr(doc_cfg, doc(cfg(feature = "serde")))]
 mod impl_serde;
